@@ -1,6 +1,11 @@
 package ech
 
-import "sync/atomic"
+import (
+	"context"
+	"errors"
+	"io"
+	"sync/atomic"
+)
 
 // C07: Conn is an order-preserving, lossless byte pipe for every fragmentation and cut.
 
@@ -37,10 +42,12 @@ func verifC07ReadPipe() {
 	// than the largest legal record aborts the connection right after that header,
 	// unless an application_data record has already switched inspection off.
 	end := len(in)
+	aborted := false
 	for q := 0; q+5 <= len(in); {
 		l := int(in[q+3])<<8 | int(in[q+4])
 		if l > 16384+2048 {
 			end = q + 5
+			aborted = true
 			break
 		}
 		if in[q] == 23 {
@@ -51,6 +58,14 @@ func verifC07ReadPipe() {
 	want := vCat(hello, in[:end])
 	vAssert(len(out) == len(want), "every byte received before the cut is delivered, none twice")
 	vAssert(vBytesEq(out, want), "bytes delivered in order and unchanged")
+	if !aborted {
+		// no abort: the transport's own end condition is what the caller sees
+		if tr.endErr != nil {
+			vAssert(errors.Is(err, errVTransport), "a transport failure is reported as such (not as a clean end of stream)")
+		} else {
+			vAssert(errors.Is(err, io.EOF) || errors.Is(err, io.ErrUnexpectedEOF), "a clean close is reported as end of stream")
+		}
+	}
 	vReach("drained")
 }
 
@@ -86,6 +101,7 @@ func verifC07WritePipe() {
 			relay[k] = 0xEE
 		}
 		if err != nil {
+			vAssert(m >= 0 && m <= n, "a failed Write reports a count within its argument")
 			failed = true
 			break
 		}
@@ -120,7 +136,7 @@ func verifC07WriteStep() {
 		vAssume(l <= 4 && len(pre) < 5+l) // invariant: incomplete record (small lengths materialised)
 	}
 	c.writeBuf = append([]byte{}, pre...)
-	c.writePassthrough = len(pre) > 0 && vBool() // app data seen earlier, remainder still buffered
+	c.writePassthrough = vBool() // app data seen earlier (a remainder may still be buffered)
 	b := vBytes(vInt(0, 6))
 	all := vCat(pre, b)
 	// reference: longest record-aligned prefix
@@ -137,8 +153,10 @@ func verifC07WriteStep() {
 		}
 		p += 5 + l
 	}
-	vAssume(legal)
-	direct := c.writePassthrough && len(pre) == 0
+	direct := c.writePassthrough && len(pre) == 0 // pure pass-through: nothing is framed or parsed, any bytes go
+	if !direct {
+		vAssume(legal)
+	}
 	if !c.writePassthrough {
 		// while inspected, a handshake record that announces a ServerHello must be one
 		q := 0
@@ -184,4 +202,55 @@ func verifC07LegalLengths() {
 		vAssert(len(tr.out) == len(rec), "backend record of a legal length is forwarded")
 		vReach("write")
 	}
+}
+
+// verifC07EndToEnd: the real rewritten hellos (first and retried) drained through
+// small caller buffers while the client's bytes arrive in small chunks, followed
+// by an ordinary record: the backend receives exactly inner hello, retried inner
+// hello, record - nothing lost, duplicated or reordered.
+func verifC07EndToEnd() {
+	tr := newVTransport(nil)
+	tr.chunk = []int{1, 3, 0}[vInt(0, 2)]
+	bufSize := []int{1, 3, 7}[vInt(0, 2)]
+	var st vC06State
+	st.name = []byte("pub.example")
+	st.k = vMakeKey(0, vByte(), [][2]uint16{{1, 1}, {1, 3}}, st.name)
+	outer := vHello{version: 0x0303, random: vBytes(32), sid: vBytes(1), suites: []byte{0x13, 0x01}, comp: []byte{0}}
+	outer.exts = []vExt{vSNI(st.name), vVersions(0x0304), {51, vBytes(1)}, {0xfe0d, nil}}
+	st.innerSN = vBytes(2)
+	st.proto = vBytes(2)
+	st.inner = vHello{version: 0x0303, random: vBytes(32), suites: []byte{0x13, 0x02}, comp: []byte{0},
+		exts: []vExt{vSNI(st.innerSN), vECHInner(), vALPN([][]byte{st.proto}), vVersions(0x0304)}}
+	st.first = vSeal(st.k, 1, 1, outer, 3, vEncodeInner(st.inner, 0))
+	tr.in = st.first.outer.record()
+	c, err := NewConn(context.Background(), tr, WithKeys([]Key{st.k.key()}))
+	vAssert(err == nil && c.ECHAccepted(), "first hello accepted over a chunked transport")
+	want1 := st.inner
+	want1.sid = outer.sid
+	msg1 := vHandshake(want1.body())
+	hrr := vServerHello(vHRRRandom, outer.sid)
+	rec2, msg2, _, _ := vSecondHello(st, 0)
+	tail := vRecord(23, 0x0303, vBytes(2))
+	var out []byte
+	drain := func(n int) {
+		for len(out) < n {
+			buf := make([]byte, bufSize)
+			k, rerr := c.Read(buf)
+			vAssert(rerr == nil && k > 0, "Read makes progress while bytes are pending")
+			out = append(out, buf[:k]...)
+		}
+	}
+	n1 := 5 + len(msg1)
+	drain(n1)
+	vAssert(len(out) == n1 && vBytesEq(out[5:], msg1), "first inner hello delivered whole through small buffers")
+	wn, werr := c.Write(hrr)
+	vAssert(werr == nil && wn == len(hrr), "HelloRetryRequest forwarded")
+	tr.in = append(tr.in, rec2...)
+	tr.in = append(tr.in, tail...)
+	n2 := n1 + 5 + len(msg2)
+	drain(n2)
+	vAssert(len(out) == n2 && vBytesEq(out[n1+5:], msg2), "retried inner hello delivered whole through small buffers")
+	drain(n2 + len(tail))
+	vAssert(len(out) == n2+len(tail) && vBytesEq(out[n2:], tail), "the record after the retried hello follows, unchanged")
+	vReach("end-to-end")
 }
